@@ -206,6 +206,13 @@ func (bc *boundsCtx) term(v ssa.Value) lterm {
 				return me
 			}
 		}
+		if isCallTo(x, "(*bytes.Buffer).Len") {
+			if ap := accessPath(x.Call.Args[0], bc.getters, 0); ap != "" {
+				me := lterm{"buflen:" + ap, 0}
+				bc.z.addLE(lconst(0), me)
+				return me
+			}
+		}
 		if b, ok := x.Call.Value.(*ssa.Builtin); ok && b.Name() == "copy" {
 			me := lterm{bc.name(v), 0}
 			bc.z.addLE(lconst(0), me)
@@ -302,6 +309,13 @@ func (bc *boundsCtx) lenOf1(x ssa.Value) lterm {
 	case *ssa.ChangeType:
 		return bc.lenOf(y.X)
 	case *ssa.Call:
+		if isCallTo(y, "(*bytes.Buffer).Bytes") {
+			if ap := accessPath(y.Call.Args[0], bc.getters, 0); ap != "" {
+				me := lterm{"buflen:" + ap, 0}
+				bc.z.addLE(lconst(0), me)
+				return me
+			}
+		}
 		if f := calleeFn(y.Common()); f != nil {
 			switch f.String() {
 			case "strings.Split", "bytes.Split":
